@@ -712,30 +712,30 @@ impl Monitor for M {
             Phase::new("enum", enum_total())
                 .batch(128)
                 .exhaustive("every single pattern of 1-3 letters over {a,b}, levels {0,1,2,7} in every gap, every anchor combination, alone and with the exception a-b/ab-a, on every word of length <=7 over {a,b}, lower and upper case"),
-            Phase::new("sets", tier.pick(5_000, 300_000)).batch(8),
-            Phase::new("long", tier.pick(10_000, 400_000)).batch(32),
-            Phase::new("plain", tier.pick(4_000, 100_000)).batch(16),
+            Phase::new("sets", tier.pick(5_000, 120_000)).batch(8),
+            Phase::new("long", tier.pick(10_000, 200_000)).batch(32),
+            Phase::new("plain", tier.pick(4_000, 50_000)).batch(16),
         ]
     }
 
     fn floors(&self, tier: Tier) -> Vec<(&'static str, u64)> {
         let q = tier == Tier::Quick;
         vec![
-            ("words_checked", if q { 11_200_000 } else { 600_000_000 }),
-            ("words_with_positions", if q { 4_000_000 } else { 200_000_000 }),
-            ("words_in_exception_list", if q { 20_000 } else { 1_000_000 }),
-            ("exception_words_where_patterns_also_match", if q { 8_000 } else { 300_000 }),
-            ("words_with_competing_odd_even_levels", if q { 500_000 } else { 25_000_000 }),
-            ("words_matched_by_start_anchored_pattern", if q { 250_000 } else { 12_000_000 }),
-            ("words_matched_by_end_anchored_pattern", if q { 250_000 } else { 12_000_000 }),
-            ("words_matched_by_pattern_of_17+_letters", if q { 20_000 } else { 700_000 }),
-            ("words_matched_by_pattern_with_16+_zero_run", if q { 15_000 } else { 600_000 }),
-            ("words_matched_by_level_6-9", if q { 1_200_000 } else { 60_000_000 }),
-            ("words_with_upper_case", if q { 1_200_000 } else { 70_000_000 }),
-            ("words_with_multibyte_letters", if q { 1_200_000 } else { 50_000_000 }),
-            ("plain_words_checked", if q { 200_000 } else { 6_000_000 }),
-            ("plain_words_with_positions", if q { 150_000 } else { 4_000_000 }),
-            ("plain_exception_words", if q { 5_000 } else { 150_000 }),
+            ("words_checked", if q { 11_200_000 } else { 12 * 11_200_000 }),
+            ("words_with_positions", if q { 4_000_000 } else { 12 * 4_000_000 }),
+            ("words_in_exception_list", if q { 20_000 } else { 12 * 20_000 }),
+            ("exception_words_where_patterns_also_match", if q { 8_000 } else { 12 * 8_000 }),
+            ("words_with_competing_odd_even_levels", if q { 500_000 } else { 12 * 500_000 }),
+            ("words_matched_by_start_anchored_pattern", if q { 250_000 } else { 12 * 250_000 }),
+            ("words_matched_by_end_anchored_pattern", if q { 250_000 } else { 12 * 250_000 }),
+            ("words_matched_by_pattern_of_17+_letters", if q { 20_000 } else { 12 * 20_000 }),
+            ("words_matched_by_pattern_with_16+_zero_run", if q { 15_000 } else { 12 * 15_000 }),
+            ("words_matched_by_level_6-9", if q { 1_200_000 } else { 12 * 1_200_000 }),
+            ("words_with_upper_case", if q { 1_200_000 } else { 12 * 1_200_000 }),
+            ("words_with_multibyte_letters", if q { 1_200_000 } else { 12 * 1_200_000 }),
+            ("plain_words_checked", if q { 200_000 } else { 12 * 200_000 }),
+            ("plain_words_with_positions", if q { 150_000 } else { 12 * 150_000 }),
+            ("plain_exception_words", if q { 5_000 } else { 12 * 5_000 }),
             ("known_reproducer_ran", 1),
         ]
     }
